@@ -1519,6 +1519,7 @@ fn states(view: &str, n: &str, old: &str, old2: &str) -> Vec<(String, usize)> {
         format!("Aaa: 1\n# before\n{}# after\nZzz: 2\n", fld),                // comments around it
         format!("{}Aaa: 1\n{}", fld, fld2),                                   // present twice
         "Aaa: 1\n# c\nZzz: 2".to_string(),                                    // absent, no final newline
+        "Aaa: 1\nZzz: 2\n# vim: set ft=debcontrol :".to_string(),             // absent; the last line is an unterminated comment
         format!("Aaa: 1\n{}:{}\nZzz: 2", n, old.replace('\n', "\n\t")),       // tight layout, no final newline
     ];
     let single = view == "dep3.PatchHeader" || view == "changes.Changes";
